@@ -55,6 +55,16 @@ Theorem C16_path_secure_effective_uid : forall (id : ident) (tg flags : N) (chai
 Proof. exact path_secure_as_spec. Qed.
 Print Assumptions C16_path_secure_effective_uid.
 
+(* which walks run is a function of the site and of what is at the file's name (GenPath *_walk, observed on
+   starts with and without files already there): the verdict of every site — key, seed, log, socket, pid —
+   on its directory chain does not depend on the prior state of the leaf, and is the rule above *)
+Theorem C16_dir_verdict_independent_of_leaf :
+  forall (s : fsite) (leaf leaf' : fobs) (id : ident) (tg : N) (chain : list dstat),
+  dir_verdict s leaf id tg chain = dir_verdict s leaf' id tg chain /\
+  (dir_verdict s leaf id tg chain = Secure <-> Forall (dir_ok (i_euid id) tg (site_flags s)) chain).
+Proof. exact dir_verdict_independent. Qed.
+Print Assumptions C16_dir_verdict_independent_of_leaf.
+
 (* without --force the key is accepted exactly when it is a regular file, not reached through a symlink,
    owned by the EFFECTIVE uid, without group/other read or write permission (mode land 0066 = 0), in a
    secure directory — whatever the real and saved ids are *)
